@@ -412,6 +412,11 @@ func Drop[T any](count int, list ...T) []T {
 // DropLast drops last N item(s) from the list and returns new list.
 // Returns empty list if there is only one item in the list or list empty
 func DropLast[T any](count int, list ...T) []T {
+	if count <= 0 {
+		// nothing to drop (as Drop does); a negative count would slice beyond len(list)
+		return list
+	}
+
 	listLen := len(list)
 
 	if listLen == 0 || count >= listLen {
